@@ -8,6 +8,23 @@ round trip.  No PRNG and no clock is touched here.
 POISON_UNHASHABLE = {"l": [9, 9]}
 
 
+class Box:
+    """An attribute value that is *hashable* and *mutable* (a user-defined object with state):
+    equal by state, constant hash, copyable and picklable."""
+
+    def __init__(self, items=()):
+        self.items = list(items)
+
+    def __eq__(self, other):
+        return isinstance(other, Box) and self.items == other.items
+
+    def __hash__(self):
+        return 7
+
+    def __repr__(self):
+        return f"Box({self.items!r})"
+
+
 def enc(v):
     if v is None or isinstance(v, (bool, str)):
         return v
@@ -17,6 +34,8 @@ def enc(v):
         return int(v)
     if isinstance(v, float):
         return {"f": v}
+    if isinstance(v, Box):
+        return {"box": [enc(x) for x in v.items]}
     if isinstance(v, tuple):
         return {"t": [enc(x) for x in v]}
     if isinstance(v, list):
@@ -44,6 +63,8 @@ def dec(v):
             import numpy as np
 
             return np.int64(v["npi"])
+        if "box" in v:
+            return Box(dec(x) for x in v["box"])
         if "f" in v:
             return float(v["f"])
         if "t" in v:
